@@ -5,7 +5,7 @@ export GOFLAGS=-mod=mod GOPROXY=off GOSUMDB=off GOTOOLCHAIN=local
 d=$(mktemp -d /tmp/govc-mut.XXXXXX)
 trap 'rm -rf "$d"' EXIT
 rsync -a --exclude .git /repo/ "$d/"
-(cd "$d" && patch -p1 -s < "$2") || { echo "patch does not apply"; exit 3; }
+p=$(realpath "$2"); (cd "$d" && patch -p1 -s < "$p") || { echo "patch does not apply"; exit 3; }
 /verif/bin/govc check "$1" "${3:-quick}" -repo "$d" -out "$d/.govc-out"
 rc=$?
 if [ -n "$KEEP" ]; then mkdir -p "$KEEP"; cp -r "$d/.govc-out/." "$KEEP/" 2>/dev/null; fi
